@@ -101,6 +101,15 @@ def extract(repo):
     if len(set_o) != 3 or "export {}={}" not in fp_strs or _quote_calls(mf) != 1:
         raise ExtractError("mangleFingerprints preamble changed: %r" % fp_strs)
 
+    sf = find(bash, "setupFingerprint")
+    fp_head = None
+    for n in ast.walk(sf):
+        if isinstance(n, ast.Assign) and isinstance(n.targets[0], ast.Name) and n.targets[0].id == "args" and isinstance(n.value, ast.List):
+            fp_head = [literal(e) for e in n.value.elts[1:]]
+    sf_strs = [s for s in constants(sf, str) if s.startswith("-")]
+    if fp_head is None or [s for s in sf_strs if s not in fp_head] != ["-x", "-c"]:
+        raise ExtractError("setupFingerprint argv literals changed: %r %r" % (fp_head, sf_strs))
+
     setup_exec = _class_fn(bash, "__setupExec")
     exec_strs = constants(setup_exec, str)
     if [s for s in exec_strs if s.startswith("-")] != ["-x", "--"]:
@@ -160,6 +169,7 @@ def extract(repo):
            "def prologArraysComment : List Char := " + lean_chars(mid[0]),
            "def prologEnvComment : List Char := " + lean_chars(mid[1]),
            "def fingerprintSetO : List (List Char) := " + cl(set_o),
+           "def fingerprintBashOpts : List (List Char) := " + cl(fp_head),
            "def invalidExecPrefix : List Char := " + lean_chars(invalid[0][:-2]),
            "def posixWhiteList : List (List Char) := " + cl(sorted(posix_wl)),
            "def quoteCallsInProlog : Nat := %d" % n_quote_prolog,
